@@ -176,6 +176,12 @@ pub(super) mod http1 {
         }
 
         if req.request().method() == http::Method::CONNECT {
+            if req.request().uri().authority().is_none() {
+                return Err(Error::Protocol(
+                    "CONNECT request URI is missing an authority".into(),
+                ));
+            }
+
             authority_form(req.request_mut().uri_mut());
 
             // If the URI is to HTTPS, and the connector claimed to be a proxy,
@@ -212,13 +218,11 @@ pub(super) mod http1 {
         };
     }
 
-    fn absolute_form(uri: &mut Uri) {
-        debug_assert!(uri.scheme().is_some(), "absolute_form needs a scheme");
-        debug_assert!(
-            uri.authority().is_some(),
-            "absolute_form needs an authority"
-        );
-    }
+    /// Leave the URI as it is: absolute-form if it has a scheme and an authority.
+    ///
+    /// A URI without a scheme or an authority is already in the form it will be
+    /// sent in, origin-form or the asterisk-form of `OPTIONS *`.
+    fn absolute_form(_uri: &mut Uri) {}
 
     /// Convert the URI to origin-form, if it is not already.
     ///
